@@ -39,6 +39,12 @@ ROUTING  real: SecNode + Dispatcher (handle_logging, handle__ident -> reset_conn
          history(S) + r + f, reply judged, full probe.  A disagreement that the route without r does not show is
          reported under `...:only-after-redundant-<class of r>` (implementation state that depends on the history
          beyond the table, e.g. a remembered "has logging" flag that a single-module `off` clears).
+  sub-check `hidden`: bfs to closure (2 connections) and the unmerged histories (thorough: also `redundant`) on a node with
+         modules m1 and aux, aux configured with export=False: it is not in the description but `logging aux <level>`
+         addresses it by name.  Demanded: delivery of aux's records exactly as chosen by name, nothing any more after
+         *IDN? / disconnect / `logging aux off`.  Whether `logging . <level>` also addresses a module outside the
+         description is not said by the statement: the harness asks the implementation once (one `logging . debug` +
+         one record of aux) and then demands that `.` behaves consistently that way in every state.
   sub-check `histories`: every operation sequence of length <= 2 (quick) / 3 (thorough) on 2 connections without any
          merging (emit is an ordinary operation here), judged after every step, full probe at the end; and
          `histories-reduced`: every sequence of length 3 (quick) / 4 (thorough) over the alphabet without emits and with
@@ -116,6 +122,48 @@ BFS_RECORDS = RECORDS[:5]       # the probe of the state exploration; the critic
 OFFROW = ('off',) * len(MODS)
 
 
+# A profile chooses the two modules of the node.  'plain': m1, m2 (both in the description).  'hidden': m1 and aux, where
+# aux is configured with export=False: it is no part of the description, but `logging aux <level>` addresses it by name.
+# Whether `logging . <level>` also addresses a module outside the description is not said by the statement: the harness
+# asks the implementation once (probe_dot_semantics) and then demands that '.' is used consistently that way; what IS
+# demanded for the hidden module: delivery exactly as chosen by name, and nothing any more after *IDN? / disconnect.
+PROFILES = {'plain': ('m1', 'm2'), 'hidden': ('m1', 'aux')}
+HIDDEN = ('aux',)
+PROFILE = 'plain'
+DOT_MODS = MODS          # the modules `.` addresses
+
+
+def use_profile(name, dot_hidden=None):
+    global PROFILE, MODS, TARGETS, DOT_MODS          # pylint: disable=global-statement
+    PROFILE = name
+    MODS = PROFILES[name]
+    TARGETS = MODS + ('.',)
+    DOT_MODS = MODS
+    if name == 'hidden':
+        if dot_hidden is None:
+            dot_hidden = probe_dot_semantics()
+        if not dot_hidden:
+            DOT_MODS = tuple(m for m in MODS if m not in HIDDEN)
+    return dot_hidden
+
+
+def module_cfg():
+    return {m: ({'cls': Module, 'export': False} if m in HIDDEN else {'cls': Module}) for m in MODS}
+
+
+def probe_dot_semantics():
+    """does `logging . <level>` address a module that is not exported?  (asked once, both answers are accepted)"""
+    node = nodes.Node(module_cfg())
+    try:
+        conn = node.connect()
+        node.request(conn, 'logging . "debug"')
+        conn.take()
+        node.secnode.modules[HIDDEN[0]].log.error('probe')
+        return any(m[0] == 'log' for m in conn.take())
+    finally:
+        node.close()
+
+
 def initial(nconn):
     return (OFFROW,) * nconn
 
@@ -153,7 +201,7 @@ def ref_apply(state, op):
         _, _, target, lev = op
         row = list(rows[c])
         for i, m in enumerate(MODS):
-            if target in ('.', m):
+            if target == m or target == '.' and m in DOT_MODS:
                 row[i] = lev
         rows[c] = tuple(row)
     elif kind == 'idn':
@@ -230,7 +278,7 @@ class Rig:
     """a fresh real node with nconn fake connections"""
     def __init__(self, nconn, part):
         self.part = part
-        self.node = nodes.Node({m: {'cls': Module} for m in MODS})
+        self.node = nodes.Node(module_cfg())
         self.conns = [self.node.connect() for _ in range(nconn)]
         self.mods = {m: self.node.secnode.modules[m] for m in MODS}
         self.state = initial(nconn)
@@ -278,12 +326,12 @@ def judge_emit(part, state, op, exc, msgs, text, case, after, actor):
     """R1/R4 for one emitted record; `after` = class of the operation that produced `state`; returns True if fine"""
     mod, levname = op[1], op[2]
     levelno = dict(RECORDS)[levname]
-    tag = ':record-critical' if levname == 'critical' else ''
+    tag = (':record-critical' if levname == 'critical' else '') + (':module-not-exported' if mod in HIDDEN else '')
     ok = True
     if exc is not None:
         part.violation(f'C20:routing:emit-raises:{type(exc).__name__}{tag}', case,
                        f'{case_text(case)}: {optext(op)} raised {exc!r} into the module (table: {table_text(state)})')
-        if tag:     # counted on its own, so that the outcome histogram still shows what the other record levels do
+        if levname == 'critical':     # counted on its own, so that the outcome histogram still shows what the other record levels do
             part.extra['critical_record_raised'] += 1
             return True
         return False
@@ -371,6 +419,8 @@ def run_history(part, nconn, ops, judge_all=True, records=RECORDS, sigtag=''):
     case = {'kind': 'routing', 'nconn': nconn, 'ops': [list(op) for op in ops]}
     if sigtag:
         case['sigtag'] = sigtag
+    if PROFILE != 'plain':
+        case.update(profile=PROFILE, dot_hidden=len(DOT_MODS) == len(MODS))
     try:
         state = rig.state
         ok = True
@@ -412,6 +462,8 @@ def run_batch(part, nconn, hist, state, noops):
         rig.take()
         for op in noops:
             case = {'kind': 'routing', 'nconn': nconn, 'ops': [list(o) for o in tuple(hist) + (op,)]}
+            if PROFILE != 'plain':
+                case.update(profile=PROFILE, dot_hidden=len(DOT_MODS) == len(MODS))
             reply, exc, msgs, _ = rig.do(op)
             if rig.module_records():
                 return False
@@ -521,6 +573,16 @@ def redundant_shard(shard):
     return part
 
 
+def hidden_shard(shard):
+    """a routing shard on the node with the module that is not exported: (kind, dot_hidden, inner shard)"""
+    kind, dot_hidden, inner = shard
+    use_profile('hidden', dot_hidden)
+    try:
+        return {'bfs': bfs_shard, 'redundant': redundant_shard, 'histories': histories_shard}[kind](inner)
+    finally:
+        use_profile('plain')
+
+
 def reduced_ops(state):
     """alphabet of the deeper unmerged histories: no emits (the probe after the last operation emits everything) and
     one representative refused level"""
@@ -567,6 +629,19 @@ FOREIGN = {
     'znode': 'dir',
     'other-2025-12-30.log': 'file',     # dated log file of another root
 }
+# names that START WITH the root name followed by something else than '-': no log files of this handler either
+# ('-' sorts before '.', digits, '_' and letters, after '+' and ' ')
+PREFIXED = {
+    'node.log': 'file',                     # after the dated files
+    'node_keep-2020-01-01.log': 'file',     # after
+    'node+2020-01-01.log': 'file',          # before
+    'node.txt': 'file',                     # after, no .log suffix
+    'node2-2025-12-28.log': 'file',         # digit: after
+    'nodes-2025-12-28.log': 'file',         # another letter: after
+    'node notes': 'file',                   # before, no .log suffix
+}
+FOREIGN.update(PREFIXED)
+BASE_FOREIGN = ['aaa.txt', 'zzz.txt', 'comlog', 'znode']
 
 
 class VirtualTime:
@@ -688,7 +763,8 @@ def judge_rotation(part, case, directory, before, today, ndays, step, text, exc,
     written = False
     # the same symptom with and without foreign entries in the directory are different defect classes (a handler that
     # counts every directory entry is only wrong when there are foreign entries)
-    fclass = 'with-foreign-entries' if case['foreign'] else 'plain'
+    fclass = ('with-root-prefixed-entries' if any(n in PREFIXED for n in case['foreign'])
+              else 'with-foreign-entries' if case['foreign'] else 'plain')
     if cur in after:
         try:
             with open(os.path.join(directory, cur), encoding='utf-8') as f:
@@ -733,8 +809,9 @@ def judge_rotation(part, case, directory, before, today, ndays, step, text, exc,
     if lost_foreign and ndays:
         bad = True
         for n in lost_foreign:
-            where = 'sorting-before-the-log-files' if n < ROOT else 'sorting-after-the-log-files'
-            part.violation(f'C20:rollover:foreign-{FOREIGN.get(n, "file")}-removed:{where}', stepcase,
+            where = 'sorting-before-the-log-files' if n < ROOT + '-' else 'sorting-after-the-log-files'
+            kind = 'foreign' if n not in PREFIXED else 'root-prefixed-foreign'
+            part.violation(f'C20:rollover:{kind}-{FOREIGN.get(n, "file")}-removed:{where}', stepcase,
                            f'{what}; entries that are no log files of this handler were removed: {lost_foreign}')
     if bad:
         return 'VIOLATION'
@@ -813,9 +890,9 @@ RECORD_STEPS = [(g, n) for g in (1, 2, 3) for n in (1, 2, 3)]
 
 def records_cases(tier):
     window = 6 if tier == 'quick' else 7
-    base4 = list(FOREIGN)[:4]
+    base4 = BASE_FOREIGN
     dirs = [(), tuple(range(window)), tuple(range(0, window, 2))]
-    foreigns = [(), tuple(base4)]
+    foreigns = [(), tuple(base4), tuple(PREFIXED)]
     depth = 2
     if tier != 'quick':
         dirs += [(window - 1,), (0,), tuple(range(window - 2, window))]
@@ -841,13 +918,15 @@ def records_shard(shard):
 
 def rotation_cases(tier):
     window = 6 if tier == 'quick' else 7
-    names = list(FOREIGN)
+    names = [n for n in FOREIGN if n not in PREFIXED]
+    pre = list(PREFIXED)
     if tier == 'quick':
-        base4 = names[:4]
-        foreigns = [()] + [(n,) for n in base4] + [tuple(base4)]
+        base4 = BASE_FOREIGN
+        foreigns = [()] + [(n,) for n in base4] + [tuple(base4)] + [(n,) for n in pre[:4]] + [tuple(pre)]
         modes = ['direct']
     else:
         foreigns = [c for r in range(len(names) + 1) for c in itertools.combinations(names, r)]
+        foreigns += [(n,) for n in pre] + [tuple(pre), tuple(BASE_FOREIGN + pre)]
         modes = ['direct', 'jump2', 'twice', 'via-emit']
     return window, foreigns, modes
 
@@ -869,7 +948,7 @@ def rotation_shard(shard):
     return part
 
 
-ROT_CHUNKS = 2
+ROT_CHUNKS = 4
 
 # ---------------------------------------------------------------------------------------------------------------
 
@@ -916,6 +995,24 @@ def run(ctx):
         ctx.pmap(histories_shard, [('histories', 2, op, b['reduced_depth'], True, b['hist_depth'] + 1) for op in rfirsts],
                  name='histories-reduced')
         info.update(reduced_history_alphabet=len(rfirsts), reduced_history_depth=b['reduced_depth'])
+    if want('hidden'):
+        # the same explorations on a node whose second module is not exported (addressed by name; see PROFILES)
+        dot_hidden = use_profile('hidden')
+        try:
+            order_h, depth_h, _, open_ = reference_bfs(2, False)
+            if open_:
+                raise core.Inconclusive('reference exploration (hidden module) did not close')
+            n = b['per_shard']
+            shards = [('bfs', dot_hidden, ('bfs', 2, order_h[i:i + n])) for i in range(0, len(order_h), n)]
+            firsts = ops_for(initial(2), True)
+            shards += [('histories', dot_hidden, ('histories', 2, op, b['hist_depth'], False, 1)) for op in firsts]
+            if ctx.tier != 'quick':
+                shards += [('redundant', dot_hidden, ('redundant', 2, order_h[i:i + 6], False)) for i in range(0, len(order_h), 6)]
+        finally:
+            use_profile('plain')
+        ctx.pmap(hidden_shard, shards, name='hidden')
+        info.update(hidden_module_states=len(order_h), hidden_module_depth_to_closure=depth_h,
+                    dot_addresses_modules_outside_the_description=bool(dot_hidden))
     if want('rotation'):
         window, foreigns, modes = rotation_cases(ctx.tier)
         ctx.pmap(rotation_shard, [('rotation', n, mode, ch) for n in range(8) for mode in modes for ch in range(ROT_CHUNKS)],
@@ -940,6 +1037,9 @@ def run(ctx):
         f'routing/histories: every operation sequence (emit included) of length <= {b["hist_depth"]} on 2 connections, no merging, and '
         f'every sequence of length {b["hist_depth"] + 1}..{b["reduced_depth"]} over the alphabet without emits and with one '
         'representative refused level, each followed by the full probe; '
+        'routing/hidden: bfs to closure and the unmerged histories again on a node whose second module is configured with '
+        'export=False (enabled by name; *IDN? / disconnect must switch it off; whether `.` addresses it is asked from the '
+        'implementation once and then demanded consistently); '
         'rotation: every subset of dated log files in the window x foreign entry sets x max_days 0..7 x 3 rollovers; '
         f'records: every history of {2 if ctx.tier == "quick" else 3} steps (gap of 1..3 days, then 1..3 records) written through the real '
         'emit on a virtual clock x max_days 0..7 x start directories x foreign sets, judged after every record (a gap of g days makes '
@@ -984,5 +1084,9 @@ def replay(case):
             shutil.rmtree(tmp, ignore_errors=True)
     else:
         ops = tuple(tuple(op) for op in case['ops'])
-        run_history(part, case['nconn'], ops, judge_all=True, sigtag=case.get('sigtag', ''))
+        use_profile(case.get('profile', 'plain'), case.get('dot_hidden'))
+        try:
+            run_history(part, case['nconn'], ops, judge_all=True, sigtag=case.get('sigtag', ''))
+        finally:
+            use_profile('plain')
     return part
